@@ -69,3 +69,12 @@ func verifEnsures(c bool, label string) {
 func verifAny() int { return 0 }
 
 func verifCover(label string) {}
+
+// verifRandDrawn: s holds exactly the octets of one successful read of the system
+// random source made during the execution under verification (static obligation; at
+// run time the provenance of octets cannot be observed).
+func verifRandDrawn(s []byte) bool { return true }
+
+// verifRandFailed: some read of the system random source failed during the execution
+// under verification (never at run time, where the real source is used).
+func verifRandFailed() bool { return false }
